@@ -26,7 +26,7 @@ ANCHORS = [("octave_mcp/mcp/write.py", "WriteTool._validate_path"), ("octave_mcp
            ("octave_mcp/mcp/validate.py", "ValidateTool._validate_path"), ("octave_mcp/mcp/validate.py", "ValidateTool.execute"),
            ("octave_mcp/core/file_ops.py", "validate_octave_path"), ("octave_mcp/core/file_ops.py", "atomic_write_octave"),
            ("octave_mcp/schemas/loader.py", "load_schema_by_name"), ("octave_mcp/schemas/loader.py", "get_schema_search_paths"),
-           ("octave_mcp/schemas/loader.py", "load_schema"),
+           ("octave_mcp/schemas/loader.py", "load_schema"), ("octave_mcp/schemas/loader.py", None),
            ("octave_mcp/core/hydrator.py", "resolve_hermetic_standard"), ("octave_mcp/core/hydrator.py", "compute_vocabulary_hash"),
            ("octave_mcp/core/hydrator.py", "validate_source_uri"), ("octave_mcp/core/hydrator.py", "_check_single_snapshot"),
            ("octave_mcp/cli/main.py", "write")]
@@ -212,7 +212,7 @@ def frozen_refs(ctx):
 
 
 URI_SEGS = ["f.md", "d", "ld", "lin", "lf.md", "lfi.md", "dang.md", "dangd", "loop.md", "up", "trick.md", "n.md", ".", "..", "", "z\x00.md", "C:", "h.txt"]
-URI_EXTRA = ["loop.md/../lf.md", "trick.md/../lf.md", "loop.md/../ld/secret.md", "loop.md/../f.md", "d/loop.md/../../lf.md", "", "/", "/etc/passwd", "{SB}/f.md", "C:/x", "C:", "c:\\x", "a:", ":", "x:", "../sb/f.md", "../out/secret.md", "../../x", "up/out/secret.md", "up/sb/f.md",
+URI_EXTRA = ["{SB}/../out/secret.md", "{SB}/d/../../out/f.md", "loop.md/../lf.md", "trick.md/../lf.md", "loop.md/../ld/secret.md", "loop.md/../f.md", "d/loop.md/../../lf.md", "", "/", "/etc/passwd", "{SB}/f.md", "C:/x", "C:", "c:\\x", "a:", ":", "x:", "../sb/f.md", "../out/secret.md", "../../x", "up/out/secret.md", "up/sb/f.md",
              "d/../../out/secret.md", "d/up/f.md", "d/up/../../out/f.md", "lin/../f.md", "ld/../sb/f.md", "ld/secret.md", "lf.md", "lfi.md", "dang.md", "loop.md/x", "trick.md",
              "f.md/..", "f.md/../f.md", "n/../f.md", "n/../../out/f.md", ".//f.md", "d//f.md", "\x00", "d/\x00/../f.md", " /etc/passwd", "~/x", "d/" + P.LONG_BAD, P.LONG_BAD + "/../f.md"]
 
@@ -322,13 +322,13 @@ def stage_frozen(ctx, drv):
             if "unsupported" in m:
                 ctx.count("model_unsupported")
                 continue
-            if r["res"][0] == "raise":
-                if m["r"] != "io":
-                    ctx.corr_disagreements.append({"case": case, "model": m, "impl": r["res"], "view": "outcome of resolve_hermetic_standard"})
-                continue
-            mv = [m["r"]] + (["/" + "/".join(m["q"])] if m["r"] == "ok" else [])
-            if mv != r["res"]:
-                ctx.corr_disagreements.append({"case": case, "model": mv, "impl": r["res"], "view": "outcome (and path) of resolve_hermetic_standard"})
+            # view: does the reference resolve, and to which path (the kind of refusal is only counted)
+            mv = ["ok", "/" + "/".join(m["q"])] if m["r"] == "ok" else ["refused"]
+            iv = r["res"] if r["res"][0] == "ok" else ["refused"]
+            if mv != iv:
+                ctx.corr_disagreements.append({"case": case, "model": [m["r"]] + mv[1:], "impl": r["res"], "view": "resolves? / resolved path of resolve_hermetic_standard"})
+            elif m["r"] != r["res"][0] and not (m["r"] == "io" and r["res"][0] == "raise"):
+                ctx.count(f"frozen_refusal_kind_differs:{m['r']}/{r['res'][0]}")
 
 
 def stage_uri(ctx, drv, findings):
@@ -368,10 +368,12 @@ def stage_uri(ctx, drv, findings):
             if m["r"] == "fuel":
                 ctx.count("model_out_of_fuel")
                 continue
-            mv = [m["r"]] + (["/" + "/".join(m["q"])] if m["r"] == "ok" else [])
-            iv = ["loopRaise"] if r["res"][0] == "raise" else r["res"]
+            mv = ["ok", "/" + "/".join(m["q"])] if m["r"] == "ok" else ["refused"]
+            iv = r["res"] if r["res"][0] == "ok" else ["refused"]
             if mv != iv:
-                ctx.corr_disagreements.append({"case": case, "model": mv, "impl": r["res"], "view": "outcome (and resolved path) of validate_source_uri"})
+                ctx.corr_disagreements.append({"case": case, "model": [m["r"]] + mv[1:], "impl": r["res"], "view": "accepted? / resolved path of validate_source_uri"})
+            elif m["r"] != r["res"][0] and not (m["r"] == "loopRaise" and r["res"][0] == "raise"):
+                ctx.count(f"uri_refusal_kind_differs:{m['r']}/{r['res'][0]}")
 
 
 def replay_findings(ctx, findings):
